@@ -34,11 +34,14 @@ RULE = {
     "C14": ("one evaluation = one seeded history of 3-14 steps (query via search or __call__, clean restart with new "
             "overwrite/cache_only/directory_split/slicing options, update_from_tree) over a pool of 3-7 adversarially "
             "similar contractions through a ReusableHyperOptimizer or ReusableRandomGreedyOptimizer, in memory or on a "
-            "scratch directory behind the simulated FS layer; every answer is judged against a reference model of what "
+            "scratch directory behind the simulated FS layer; the caller may mutate returned trees or keep one set of "
+            "argument containers, and in ~8% of the hyper histories' queries every trial of the inner search is made to fail "
+            "(the query may fail, nothing for another contraction may come back); every answer is judged against a reference model of what "
             "was acknowledged. distinct_nontrivial counts distinct (model key-set, optimizer configuration, restart "
             "count, last step kind, hit/miss) states among steps that followed at least one store."),
     "C15": ("one evaluation = one seeded scenario (optimizer kind, layout, pre-existing entries, new-entry / overwrite / "
-            "improved-overwrite / first-write-into-missing-subdirectory / second-crash-during-recovery); the storing "
+            "improved-overwrite / first-write-into-missing-subdirectory / second-crash-during-recovery; a quarter with two "
+            "writer threads storing the same entry under the seeded baton scheduler); the storing "
             "process' mutation sequence is recorded fault-free and then EVERY op boundary and (thorough: every, quick: "
             "a seeded third of the) byte offsets of every write are used as crash points; after each crash three fresh "
             "processes query the directory. distinct_nontrivial counts distinct (scenario kind, op kind at the crash "
@@ -51,7 +54,9 @@ COMPONENTS = {
     "stub": ["mutating file-system calls (builtins.open/io.open for writing, os.open/write/mkdir/replace/rename/unlink/...)"
              " -> sim.fs.SimFS: numbered crash points, byte-exact torn writes, inert after the crash",
              "process = one optimizer object graph; restart = drop it and build a new one on the same directory",
-             "time.sleep in DiskDict retry -> virtual clock"],
+             "time.sleep in DiskDict retry -> virtual clock",
+             "the writer's two threads (C15) -> real threads serialised by the baton scheduler, pre-empted at line events in reusable.py / DiskDict",
+             "C14 trial fault -> a registered hyper method that raises while the simulator has it armed"],
 }
 ASSUMPTIONS = {
     "C14": ["the library's own public hash_query() names the entry a query maps to; validity of what is served is judged operationally "
@@ -68,9 +73,11 @@ ASSUMPTIONS = {
 EXPECTED_PROBES = {
     "C14": ["probe:hit_after_restart", "probe:hit_same_process", "probe:improved_overwrite_search", "probe:cache_only_refusal",
             "probe:cache_only_hit", "probe:shared_entry_allowed", "probe:sliced_entry_served", "step:update_from_tree",
-            "probe:hash_b_hit", "probe:shared_mutable_args", "probe:caller_mutated_returned_tree"],
+            "probe:hash_b_hit", "probe:shared_mutable_args", "probe:caller_mutated_returned_tree",
+            "all_trials_failed", "probe:query_failed_cleanly_after_trial_faults"],
     "C15": ["crash:open", "crash:write-torn", "crash:mkdir", "outcome:old-entry-served", "outcome:new-entry-served",
-            "outcome:searched-again", "probe:real_exit_crosscheck", "probe:second_crash", "probe:other_entries_checked"],
+            "outcome:searched-again", "probe:real_exit_crosscheck", "probe:second_crash", "probe:other_entries_checked",
+            "probe:two_writer_threads"],
 }
 
 
@@ -150,6 +157,47 @@ def _variants(rng, base):
         # (b) sizes stay with the names: different contraction when sizes are unequal
         mk(ins, o, dict(size_dict), "relabelled-sizes-by-name")
     return out
+
+
+def _label_map(rng, pool, mode):
+    """Index labels other than single characters: multi-character strings or integers (>= 10 among them), chosen so
+    that one tensor of the base has a look-alike whose labels concatenate to the same text ('a'+'bc' vs 'ab'+'c',
+    1,23 vs 12,3). Returns (mapping old->new, extra variant or None). The mapping lives in the case as JSON
+    (str -> str|int) and is applied when the run starts."""
+    base = pool[0]
+    names = sorted({ix for q in pool for ix in q["size_dict"]})
+    twin = None
+    special = {}
+    cands = [(i, t) for i, t in enumerate(base["inputs"]) if len(set(t)) >= 2]
+    rng.shuffle(cands)
+    for i, t in cands:
+        others = [ix for ix in sorted(base["size_dict"]) if ix not in t]
+        # the look-alike must stay a valid contraction: the two indices taken off this tensor still appear elsewhere
+        movable = [ix for ix in sorted(set(t)) if sum(1 for u in base["inputs"] if ix in u) >= 2]
+        if len(others) >= 2 and len(movable) >= 2:
+            pq = rng.sample(movable, 2)
+            rs = rng.sample(others, 2)
+            tok = ["a", "bc", "ab", "c"] if mode == "multi" else [1, 23, 12, 3]
+            special = dict(zip(pq + rs, tok))
+            ins = [list(x) for x in base["inputs"]]
+            ins[i] = [rs[pq.index(ix)] if ix in pq else ix for ix in t]
+            twin = {"inputs": ins, "output": list(base["output"]), "size_dict": dict(base["size_dict"]), "why": "labels-concatenate-alike"}
+            break
+    if mode == "multi":
+        spare = ["d", "e", "fg", "h", "ij", "k", "lm", "n", "op", "q", "rs", "t", "uv", "w", "xy", "z"] + ["v%d" % k for k in range(40)]
+    else:
+        spare = [4, 5, 6, 7, 8, 9, 10, 11, 14, 15, 16, 17, 18, 19, 20, 21, 22] + list(range(30, 90))
+    m = {}
+    for ix in names:
+        m[ix] = special[ix] if ix in special else spare.pop(0)
+    return m, twin
+
+
+def _apply_labels(q, m):
+    if not m:
+        return q
+    return {"inputs": [[m[ix] for ix in t] for t in q["inputs"]], "output": [m[ix] for ix in q["output"]],
+            "size_dict": {m[k]: v for k, v in q["size_dict"].items()}, "why": q["why"]}
 
 
 def canon_a(q):
@@ -288,7 +336,19 @@ def gen_case_c14(seed, tier):
     base = netgen.gen_network(net_rng, n_min=4, n_max=sw.choice([5, 7, 9]), max_inds=16, dims=sw.choice([(2, 3), (2, 3, 4), (2, 2, 8)]),
                               max_rank=4, space_cap=2 ** 40, feat=feat)
     pool = _variants(net_rng, base)
-    net_rng.shuffle(pool)
+    labels_mode = sw.choice(["char", "char", "char", "multi", "int"])
+    label_map = None
+    if labels_mode != "char":
+        label_map, twin = _label_map(net_rng, pool, labels_mode)
+        if twin is not None:
+            pool.insert(1, twin)
+    if labels_mode == "char":
+        net_rng.shuffle(pool)
+    else:
+        # the base and its look-alike stay in the pool
+        first, rest = pool[:2], pool[2:]
+        net_rng.shuffle(rest)
+        pool = first + rest
     pool = pool[: sw.randint(3, 7)]
     hash_method = sw.choice(["a", "a", "b"])
     cfg0 = {"kind": kind, "hash_method": hash_method, "max_repeats": sw.randint(1, 3), "opt_seed": sw.randrange(2 ** 31),
@@ -326,6 +386,8 @@ def gen_case_c14(seed, tier):
                           "mutate": ops_rng.choice([None, None, None, "remove_ind", "reconf"])})
             if trial_faults and ops_rng.random() < 0.25:
                 steps[-1]["fail_trials"] = True
+            # right after the answer a fresh cache_only process reads the entry back: it must hold what was just returned
+            steps[-1]["readback"] = ops_rng.random() < 0.3
         elif r < 0.88:
             steps.append({"step": "restart", "cfg": gen_cfg_changes()})
         else:
@@ -337,7 +399,7 @@ def gen_case_c14(seed, tier):
     # some callers keep ONE inputs/output/size_dict object and edit it in place between queries (e.g. a bond-dimension sweep)
     args_mode = sw.choice(["fresh", "fresh", "shared-mutable"])
     return {"seed": seed, "prop": "C14", "pool": pool, "cfg": cfg0, "first_cfg": first, "use_dir": use_dir, "steps": steps,
-            "args_mode": args_mode}
+            "args_mode": args_mode, "labels": label_map}
 
 
 def run_case_c14(case):
@@ -353,7 +415,9 @@ def run_case_c14(case):
     counters, faults = C(), C()
     states = set()
     violations = []
-    pool = case["pool"]
+    pool = [_apply_labels(q, case.get("labels")) for q in case["pool"]]
+    if case.get("labels"):
+        counters["probe:labels_" + ("int" if any(isinstance(v, int) for v in case["labels"].values()) else "multichar")] += 1
     kind = case["cfg"]["kind"]
     hash_method = case["cfg"]["hash_method"]
     scratch = tempfile.mkdtemp(prefix="verif-c14-", dir=simfs.scratch_base())
@@ -606,6 +670,28 @@ def run_case_c14(case):
                             # path only: we cannot tell the score; keep the better-known bound
                             new["score"] = None
                         model[hk] = new
+                if st.get("readback") and directory is not None and not co and st["via"] == "search" and (searched or hit):
+                    # a fresh process, cache_only: the directory must hold exactly what this query was just given
+                    rcfg = dict(cfg)
+                    rcfg.update(cache_only=True, overwrite=False)
+                    n1 = sc.n
+                    try:
+                        rt = make_optimizer(ctg, fix_layout(rcfg), directory).search(*_q_args(q))
+                    except Exception as e:
+                        V("entry-not-readable-after-answer", f"step {si}: a fresh cache_only process failed right after the query was answered: {type(e).__name__}: {e}")
+                        break
+                    counters["probe:readback_by_fresh_process"] += 1
+                    if sc.n != n1:
+                        V("cache-only-searched", f"step {si}: the cache_only read-back ran a search")
+                        break
+                    why = check_tree(rt, q)
+                    if why:
+                        V("answer-not-for-this-query", f"step {si} (read-back): {why}", via="search", variant=q["why"])
+                        break
+                    if rt.get_path() != got_path or set(rt.sliced_inds) != set(got_sliced or ()):
+                        V("stored-entry-differs-from-answer", f"step {si}: the query was answered with path {got_path} sliced {got_sliced}, but the entry a fresh "
+                          f"process reads back is path {rt.get_path()} sliced {tuple(rt.sliced_inds)}", overwrite=str(ow))
+                        break
                 if st["via"] == "search" and st.get("mutate") and res is not None:
                     # the caller modifies ITS tree in place; the cache must not be affected
                     try:
